@@ -2,7 +2,9 @@
 FUNCS = ["JobInformation.state", "VarExpr.get", "ConstantString.get", "BaseInExpr.__init__", "RegexExpr.__init__",
          "InExpr.filter", "NotInExpr.filter", "RegexExpr.filter", "LogicExpr.filter", "LogicExpr.summary"]
 LEVEL = "proof"
-TRUSTED = []
+LEVEL_TEXT = 'Deductive: VarExpr.get, In/NotIn/Regex/Logic filters and JobInformation.state equal their documented meaning; constructor of RegexExpr compiles the operand string; LogicExpr.summary builds the left-associated chain. Bounded: createFilter(text) against an evaluator written from the documentation; jobs clean and orphans --clean on materialised workspaces.'
+TRUSTED = ['pyparsing grammar; process()/orphans() are covered by the bounded suite only', 'z3 5.1 / cvc5 1.0.3 / z3 4.8.12 and the VC generator pyvc (validated by seeded changes, pre-fix replays and the CPython replay of counterexamples; not verified)', 'Python semantics of DESIGN 2.3 (mathematical ints and reals, left-to-right evaluation, no monkey-patching, assert not compiled out)', 'heap typing: declared field/parameter classes are assumed on reads and checked on writes in the functions under contract', "contracts of externals and of callees outside the list are assumed; every ('ASSUME', ...) clause is listed in DESIGN section 11"]
+LEVEL_NOTE = 'pyparsing grammar; process()/orphans() are covered by the bounded suite only'
 
 from bounded.filters import run_filters
 from bounded.cleaning import run_cleaning
